@@ -306,10 +306,12 @@ def render(doc: dict, fmt: dict | None = None) -> bytes:
     out.append("[HitObjects]")
     for o in doc.get("objs", []):
         tail = f'{o["sample_set"]}:{o["addition_set"]}:{o["custom_set"]}:{o["volume"]}:{o["hitsound_file"]}'
+        # "hitSample ... If it is not written, it defaults to 0:0:0:0:" (osu! file format, hit objects)
+        omit = bool(fmt.get("omit_default_hitsample")) and tail == "0:0:0:0:"
         if o.get("end") is not None:
-            out.append(f'{o["x"]},{o.get("y", 192)},{_fmt_num(o["offset"])},{o.get("type", 128)},{o["hitsound_set"]},{_fmt_num(o["end"])}:{tail}')
+            out.append(f'{o["x"]},{o.get("y", 192)},{_fmt_num(o["offset"])},{o.get("type", 128)},{o["hitsound_set"]},{_fmt_num(o["end"])}' + ("" if omit else ":" + tail))
         else:
-            out.append(f'{o["x"]},{o.get("y", 192)},{_fmt_num(o["offset"])},{o.get("type", 1)},{o["hitsound_set"]},{tail}')
+            out.append(f'{o["x"]},{o.get("y", 192)},{_fmt_num(o["offset"])},{o.get("type", 1)},{o["hitsound_set"]}' + ("" if omit else "," + tail))
     if fmt.get("trailing_newline", True):
         out.append("")
     return nl.join(out).encode("utf-8")
